@@ -31,6 +31,7 @@ LINE_KINDS: Dict[str, str] = {
     "own-B": f"{IC}[B]",
     "comment": "# a comment",
     "indented-code": "    y = g()",
+    "blank": "",
 }
 
 
